@@ -143,7 +143,7 @@ fn surviving(sc: &Script, n_red: u32, n_mw: u32) -> Vec<(u32, EffSpec)> {
 
 pub fn execute(c: &ECfg, seed: u64) -> W {
     let ctx = Ctx::new_opts(ScriptSrc::Table(c.scripts.clone()), 3, seed, c.perturb, false, true);
-    let w = W::new(ctx, vec![StoreCfg { policy: POL_BLOCK, cap: c.cap, n_red: c.n_red, n_mw: c.n_mw, name: "rsve".into() }]);
+    let w = W::new(ctx, vec![StoreCfg { policy: POL_BLOCK, cap: c.cap, n_red: c.n_red, n_mw: c.n_mw, name: "rsve".into(), ctor: 0 }]);
     let keep = w.add_direct(0, NOGATE, false, true, false);
     // programs and what they are expected to cause
     let mut rng = Rng::new(mix(seed, 555));
